@@ -15,7 +15,7 @@ vars == <<base, stack, val>>
 DimSets == {<<"a">>, <<"b", "c">>, <<>>}
 Wrappers(v) ==
     {[VW("Dim") EXCEPT !.ds = ds] : ds \in DimSets}
-    \cup {[VW("Flag") EXCEPT !.f = f] : f \in {"A", "B"}}
+    \cup {[VW("Flag") EXCEPT !.f = f] : f \in {"A", "B", "0"}}   \* "0": a constructor that contributes no flags
     \cup {VW(w) : w \in IdentityValueWrappers \cup {"None"}}
     \* formatter-lifted containers: directly around the base value only (keeps the number of stacks moderate)
     \cup (IF stack = <<>> THEN {VW(w) : w \in FormatterLifted \cup {"FmtNone"}} ELSE {})
@@ -55,4 +55,9 @@ Units19 ==
 
 Emit == Len(stack) <= Depth => PrintT(<<"REPLAY", ToJson([base |-> base, stack |-> stack, expect |-> val.call])>>)
 EmitUnits == stack = <<>> => PrintT(<<"UNITS", ToJson([u \in UnitIds |-> U(u).name])>>)
+\* MetricFlags::try_merge itself, on every pair of flag sets ({} = no flags on that side)
+EmitFlagMerge == (stack = <<>> /\ base = "u64") =>
+    /\ FlagMergeLaws
+    /\ PrintT(<<"FLAGMERGE", ToJson({[x |-> x, y |-> y, r |-> FlagMerge(x, y)] :
+                                        x \in SUBSET {"A", "B", "C"}, y \in SUBSET {"A", "B", "C"}})>>)
 =============================================================================
